@@ -79,6 +79,7 @@ type gworld struct {
 	converged  bool
 	convAt     time.Duration
 	lastFault  time.Duration
+	convCounted bool
 }
 
 func (w *gworld) stat(n string) { w.stats[n]++ }
@@ -201,6 +202,12 @@ func (w *gworld) checkUpdate(pc *peerConn, u *bgpwire.Update) {
 	}
 	for _, p := range u.Withdrawn {
 		delete(pc.rib, p.String())
+	}
+	if len(u.Withdrawn) > 0 {
+		w.stat("probe.withdraw-received")
+	}
+	if len(u.NLRI) > 0 && pc.id > 1 {
+		w.stat("probe.update-on-a-reconnected-session")
 	}
 	if len(u.NLRI) == 0 {
 		return
@@ -357,6 +364,12 @@ func (w *gworld) peer(pc *peerConn) {
 	for {
 		if dropAfter >= 0 && pc.msgsAfterOpen >= dropAfter {
 			w.s.Event("peer%d drops the connection after %d messages", pc.id, pc.msgsAfterOpen)
+			if len(pc.rib) > 0 {
+				w.stat("probe.connection-lost-with-routes-installed")
+			}
+			if pc.msgsAfterOpen > 0 && !sameRoutes(pc.rib, w.last, w.ibgp) {
+				w.stat("probe.connection-lost-in-the-middle-of-an-update-sequence")
+			}
 			pc.closedByPeer = true
 			if w.pick(2, "reset or close") == 0 {
 				c.Reset()
@@ -467,6 +480,12 @@ func (w *gworld) workload(sm bgp.SessionManager) {
 		w.sets = append(w.sets, rs)
 		w.last = rs
 		w.s.Event("Set(%v)", rs)
+		if w.current() == nil {
+			w.stat("probe.set-while-not-established")
+		}
+		if len(rs) == 0 {
+			w.stat("probe.empty-set-requested")
+		}
 		if err := sess.Set(ads...); err != nil {
 			panic(fmt.Sprintf("Set refused a valid advertisement set: %v", err))
 		}
@@ -570,6 +589,16 @@ func gnativeRun(env *runner.Env) (res *runner.Result) {
 			if cur := w.current(); cur != nil && sameRoutes(cur.rib, w.last, w.ibgp) && cur.client.Pending() == 0 {
 				if !w.converged {
 					w.converged, w.convAt = true, now
+					if !w.convCounted {
+						w.convCounted = true
+						w.stat("probe.converged")
+						if w.lastFault > 0 {
+							w.stat("probe.converged-after-faults")
+						}
+						if cur.id > 1 {
+							w.stat("probe.converged-on-a-reconnected-session")
+						}
+					}
 				}
 				return now > w.convAt+w.hold // stay a little longer: nothing may undo the convergence
 			}
@@ -592,6 +621,7 @@ func gnativeRun(env *runner.Env) (res *runner.Result) {
 		if w.viol == nil && w.workDone && env.On("C17") {
 			switch {
 			case w.closed:
+				w.stat("probe.silence-after-close-checked")
 				if simnet.Dials != w.closeDials || w.totalWritten() != w.closeBytes {
 					w.violate("C17", "activity-after-close", "", fmt.Sprintf("after Close returned the session dialled %d more time(s) and wrote %d more byte(s)", simnet.Dials-w.closeDials, w.totalWritten()-w.closeBytes))
 				}
